@@ -119,7 +119,7 @@ fn c11_angle4(u: Vector4<R>, v: Vector4<R>) {
     vlemma("mu>0", mu > R(0.0)); vlemma("mv>0", mv > R(0.0));
     c11_lemma_ratio(uu, vv, d, mu, mv);
     let th = u.angle(v);
-    vassert("angle in [0,pi]", (th.0 >= R(0.0)) & (th.0 <= Rad::<R>::turn_div_2().0));
+    vassert("angle in [0,pi]", (th.0 >= R(0.0)) & (th.0 <= R(std::f64::consts::PI)));
     vlemma_eq("cos(acos t)=t", Angle::cos(th), d / (mu * mv));
     c11_lemma_cos(mu, mv, d, Angle::cos(th));
     vassert_eq("|u||v|cos=u.v", mu * mv * Angle::cos(th), d);
@@ -129,7 +129,7 @@ fn c11_angle4(u: Vector4<R>, v: Vector4<R>) {
 fn c11_angle1(u: Vector1<R>, v: Vector1<R>) {
     vassume(u.magnitude2() != R(0.0)); vassume(v.magnitude2() != R(0.0));
     let th = u.angle(v);
-    vassert("angle in [0,pi]", (th.0 >= R(0.0)) & (th.0 <= Rad::<R>::turn_div_2().0));
+    vassert("angle in [0,pi]", (th.0 >= R(0.0)) & (th.0 <= R(std::f64::consts::PI)));
     vassert_eq("|u||v|cos=u.v", u.magnitude() * v.magnitude() * Angle::cos(th), u.dot(v));
     vassert_eq("symmetric", u.angle(v), v.angle(u));
     vcover("end");
@@ -146,7 +146,7 @@ fn c11_angle_quat(u: Quaternion<R>, v: Quaternion<R>) {
     vlemma("mu>0", mu > R(0.0)); vlemma("mv>0", mv > R(0.0));
     c11_lemma_ratio(uu, vv, d, mu, mv);
     let th = u.angle(v);
-    vassert("angle in [0,pi]", (th.0 >= R(0.0)) & (th.0 <= Rad::<R>::turn_div_2().0));
+    vassert("angle in [0,pi]", (th.0 >= R(0.0)) & (th.0 <= R(std::f64::consts::PI)));
     vlemma_eq("cos(acos t)=t", Angle::cos(th), d / (mu * mv));
     c11_lemma_cos(mu, mv, d, Angle::cos(th));
     vassert_eq("|u||v|cos=u.v", mu * mv * Angle::cos(th), d);
@@ -164,7 +164,7 @@ fn c11_angle3(u: Vector3<R>, v: Vector3<R>) {
     vlemma_eq("lagrange", mu * mu * (mv * mv), x * x + y * y);
     vlemma("r>0", r > R(0.0));
     c11_lemma_atan2(mu, mv, x, y, r, Angle::sin(th), Angle::cos(th));
-    vassert("angle in [0,pi]", (th.0 >= R(0.0)) & (th.0 <= Rad::<R>::turn_div_2().0));
+    vassert("angle in [0,pi]", (th.0 >= R(0.0)) & (th.0 <= R(std::f64::consts::PI)));
     vassert_eq("|u||v|cos=u.v", mu * mv * Angle::cos(th), u.dot(v));
     vassert_eq("|u||v|sin=|uxv|", mu * mv * Angle::sin(th), u.cross(v).magnitude());
     vassert_eq("symmetric", u.angle(v), v.angle(u));
@@ -176,7 +176,7 @@ fn c11_angle2(u: Vector2<R>, v: Vector2<R>) {
     let (mu, mv) = (u.magnitude(), v.magnitude());
     let x = u.dot(v); let y = u.x * v.y - u.y * v.x; let r = (x * x + y * y).sqrt();
     let th = u.angle(v);
-    let pi = Rad::<R>::turn_div_2().0;
+    let pi = R(std::f64::consts::PI);
     vlemma("mu>0", mu > R(0.0)); vlemma("mv>0", mv > R(0.0));
     vlemma_eq("lagrange", mu * mu * (mv * mv), x * x + y * y);
     vlemma("r>0", r > R(0.0));
